@@ -5,7 +5,14 @@ PROPS = {
     "C01": {"category": "proof", "driver": None},
     "C02": {"category": "proof", "driver": None},
     "C03": {"category": "proof", "driver": None},
-    "C04": {"category": "proof", "driver": None},
+    "C04": {"category": "proof", "driver": "C04", "claimed": True,
+            "technique": "contract-based deductive verification of the search kernels' structural postconditions (own AST->VC generator, z3/cvc5) "
+                         "+ bounded run-time check of predict's frame for all seven detectors",
+            "level_text": "Structural posts proved for all inputs on the real kernels: get_changepoints/run_pelt (strictly increasing, in [m,n-m], gaps>=m), "
+                          "greedy_changepoint_selection/run_seeded_binseg (range, spacing), make_seeded_intervals, and the further kernels listed in evidence; "
+                          "the pandas formatting (_format_sparse_output, index/dtype/labels) and kernels not yet under contract are bounded only.",
+            "level_note": "floats as reals; pandas constructors trusted; detectors' class glue (_predict wiring) bounded unless listed under functions_under_contract; "
+                          "one recorded known finding (KF1)"},
     "C05": {"category": "exploration", "driver": None},
     "C06": {"category": "proof", "driver": None},
     "C07": {"category": "proof", "driver": None},
@@ -23,7 +30,14 @@ PROPS = {
                           "contract are covered only by the exhaustive bounded driver (stated in evidence).",
             "level_note": "floats as reals, int64 unbounded, assumed NumPy/sktime contracts (evidence.assumptions); classes without a class-level "
                           "contract yet (listed in evidence as bounded-only) are checked exhaustively on the box for n<=5 only"},
-    "C14": {"category": "proof", "driver": None},
+    "C14": {"category": "proof", "driver": "C14", "claimed": True,
+            "technique": "contract-based deductive verification of the validation helpers / raising paths (raises-iff clauses) + exhaustive bounded "
+                         "boundary grid of Appendix B on the real detectors",
+            "level_text": "Exceptional postconditions (raises ValueError iff the argument is outside its domain) proved for check_larger_than / "
+                          "check_smaller_than and for the scorers' parameter checks; implicit library preconditions (non-empty argmax, in-bounds index, "
+                          "non-zero divisor) are proof obligations in every kernel under contract, which is what rules out crashes at boundary "
+                          "configurations. Constructors, check_data and the end-to-end grid are bounded (Appendix B grid, stated bound).",
+            "level_note": "pd.Interval.__contains__, check_data (pandas) assumed/bounded; one recorded known finding (KF1b)"},
     "C15": {"category": "proof", "driver": None},
     "C16": {"category": "proof", "driver": None},
     "C17": {"category": "exploration", "driver": None},
